@@ -121,6 +121,13 @@ pub static MPROTECT_CALLS: AtomicI64 = AtomicI64::new(0);
 pub static MPROTECT_FAIL_PAGE: AtomicU64 = AtomicU64::new(0);
 /// != 0: every mprotect asking for PROT_WRITE|PROT_EXEC at once fails with EACCES
 pub static DENY_WX: AtomicU8 = AtomicU8::new(0);
+/// consecutive interposed mmap calls without an mprotect in between (reset per plan as well)
+pub static MMAP_RUN: AtomicU64 = AtomicU64::new(0);
+/// (address, length) of every successful mprotect the library made WITHOUT PROT_EXEC
+pub static NOEXEC_CALLS: Mutex<Vec<(u64, u64)>> = Mutex::new(Vec::new());
+pub fn noexec_take() -> Vec<(u64, u64)> {
+    NOEXEC_CALLS.lock().map(|mut v| std::mem::take(&mut *v)).unwrap_or_default()
+}
 /// number of mprotect calls that were made to fail since the last plan_reset
 pub static MPROTECT_FAILS: AtomicU64 = AtomicU64::new(0);
 
@@ -142,6 +149,8 @@ pub fn plan_reset() {
     MPROTECT_FAIL_AT.store(0, SeqCst);
     MPROTECT_FAIL_PAGE.store(0, SeqCst);
     DENY_WX.store(0, SeqCst);
+    let _ = noexec_take();
+    MMAP_RUN.store(0, SeqCst);
     MPROTECT_FAILS.store(0, SeqCst);
     MPROTECT_CALLS.store(0, SeqCst);
     clear_flush_hook();
@@ -246,6 +255,15 @@ pub unsafe extern "C" fn mmap(addr: *mut libc::c_void, len: libc::size_t, prot: 
     }
     maybe_pause(Kind::Mmap);
     MMAP_CALLS.fetch_add(1, SeqCst);
+    // a placement search has at most one probe per page of its window (65 537); a million probes
+    // in a row without any protection change or flush in between is a search that does not end.
+    // The process cannot be unwound out of the library's loop from here, so it stops with a
+    // marker the driver understands.
+    if MMAP_RUN.fetch_add(1, SeqCst) > 1_000_000 {
+        let msg = b"#runaway-placement-search\n";
+        libc::write(2, msg.as_ptr() as *const libc::c_void, msg.len());
+        libc::_exit(78);
+    }
     let hint = addr as usize;
     let page = hint & !0xFFF;
     let ret = match MODE.load(SeqCst) {
@@ -333,6 +351,7 @@ pub unsafe extern "C" fn mprotect(addr: *mut libc::c_void, len: libc::size_t, pr
         return sys_mprotect(addr as usize, len, prot);
     }
     maybe_pause(Kind::Mprotect);
+    MMAP_RUN.store(0, SeqCst);
     let n = MPROTECT_CALLS.fetch_add(1, SeqCst) + 1;
     let fp = MPROTECT_FAIL_PAGE.load(SeqCst) as usize;
     let covers = fp != 0 && (addr as usize) <= fp && fp < (addr as usize).saturating_add(len.max(1));
@@ -349,6 +368,13 @@ pub unsafe extern "C" fn mprotect(addr: *mut libc::c_void, len: libc::size_t, pr
     } else {
         sys_mprotect(addr as usize, len, prot)
     };
+    if r == 0 && (prot & libc::PROT_EXEC) == 0 {
+        if let Ok(mut v) = NOEXEC_CALLS.lock() {
+            if v.len() < 64 {
+                v.push((addr as u64, len as u64));
+            }
+        }
+    }
     push(Kind::Mprotect, addr as u64, len as u64, prot as u64, r as i64 as u64, vec![]);
     r
 }
